@@ -25,6 +25,13 @@ VERIF = os.path.dirname(os.path.dirname(os.path.abspath(__file__)))
 NPROC = os.cpu_count() or 16
 
 
+class _Bins(dict):
+    """binaries by name; a variant whose build failed maps to None (Ctx.run skips it)"""
+
+    def __missing__(self, k):
+        return None
+
+
 class CannotDecide(Exception):
     pass
 
@@ -156,11 +163,21 @@ class Ctx:
 
     def build_many(self, specs):
         """specs: list of (name, src, kwargs). Parallel build."""
-        outs = {}
+        # A harness variant that does not build against the tree under test does not hide what the other variants find:
+        # it is recorded as a harness error (exit 2 unless a violation is reported, never "held"), its runs are skipped.
+        outs = _Bins()
+        errs = []
         with cf.ThreadPoolExecutor(max_workers=NPROC) as ex:
             futs = {ex.submit(self.build, n, s, **kw): n for n, s, kw in specs}
             for f in cf.as_completed(futs):
-                outs[futs[f]] = f.result()
+                try:
+                    outs[futs[f]] = f.result()
+                except CannotDecide as e:
+                    errs.append(str(e))
+        if errs and not outs:
+            raise CannotDecide(errs[0])
+        for e in errs:
+            self.result.crashed.append('build: ' + e)
         return outs
 
     # ---- running --------------------------------------------------------
@@ -188,6 +205,8 @@ class Ctx:
 
     def run(self, binary, args=(), parts=NPROC, timeout=None, env=None, workers=NPROC):
         """Run `binary args --part i/parts` for every i, in parallel; merge into ctx.result."""
+        if binary is None:  # the variant did not build (already recorded by build_many)
+            return
         if timeout is None:
             timeout = max(30.0, self.remaining() + 60.0)
         jobs = []
